@@ -20,7 +20,13 @@ from .common import PYTHON, REPO_SRC, VERIF
 def worker_env(extra=None):
     env = dict(os.environ)
     env["PYTHONPATH"] = f"{VERIF}:{REPO_SRC}"
-    env["PYTHONDONTWRITEBYTECODE"] = "1"
+    if env.get("VERIF_PYCACHE"):
+        # bytecode goes to a scratch directory outside /repo (also speeds up the constexpr children, whose 1 s budget
+        # otherwise goes into compiling the 34k-line generated tables)
+        env["PYTHONPYCACHEPREFIX"] = env["VERIF_PYCACHE"]
+        env.pop("PYTHONDONTWRITEBYTECODE", None)
+    else:
+        env["PYTHONDONTWRITEBYTECODE"] = "1"
     env.setdefault("PYTHONHASHSEED", "0")
     env.pop("PYTRAPIC_VERIF", None)
     if extra:
@@ -38,7 +44,7 @@ class _Worker:
 
     def start(self):
         self.proc = subprocess.Popen(
-            [PYTHON, "-B", "-m", "vf.worker", self.prop],
+            [PYTHON, "-m", "vf.worker", self.prop] if os.environ.get("VERIF_PYCACHE") else [PYTHON, "-B", "-m", "vf.worker", self.prop],
             stdin=subprocess.PIPE,
             stdout=subprocess.PIPE,
             stderr=subprocess.DEVNULL,
